@@ -48,7 +48,7 @@ def add_toc_hook(
         toc_items = []
         for i, tok in enumerate(headings):
             tok["attrs"]["id"] = heading_id(tok, i)
-            toc_items.append(normalize_toc_item(md, tok))
+            toc_items.append(normalize_toc_item(md, tok, state.env.get("ref_links")))
 
         # save items into state
         state.env["toc_items"] = toc_items
@@ -56,10 +56,13 @@ def add_toc_hook(
     md.before_render_hooks.append(toc_hook)
 
 
-def normalize_toc_item(md: "Markdown", token: Dict[str, Any]) -> Tuple[int, str, str]:
+def normalize_toc_item(
+    md: "Markdown", token: Dict[str, Any], ref_links: Optional[Dict[str, Any]] = None
+) -> Tuple[int, str, str]:
     # same normalization as Markdown._iter_render (setext headings end with a newline)
     text = token["text"].strip(" \r\n\t\f")
-    tokens = md.inline(text, {})
+    # reference links resolve as they do in the heading itself
+    tokens = md.inline(text, {"ref_links": ref_links or {}})
     assert md.renderer is not None
     html = md.renderer(tokens, BlockState())
     text = striptags(html)
